@@ -667,6 +667,31 @@ func (p *Path) checkQuiet() (SatResult, *cachedModel) {
 }
 
 func (w *Worker) reportPanic(p *Path, reason string) {
+	p.asserts["reached a crash site"]++
+	// known findings for crash sites: Site is a substring of the reason
+	var classes, ids []string
+	for _, k := range w.e.known {
+		if k.Status == "known" && k.Harness == p.c.H.Func && strings.Contains(reason, k.Site) && (k.Params == nil || fmt.Sprint(k.Params) == fmt.Sprint(p.c.Params)) {
+			classes = append(classes, k.Class)
+			ids = append(ids, k.ID)
+		}
+	}
+	if len(classes) > 0 {
+		// every input on this path crashes; it is new only if some input lies outside the known classes
+		r, cm := p.checkWithRaw(p.tt().Bool(true), classes)
+		if r == Unsat {
+			w.e.noteKnown(ids, p.c, reason)
+			return
+		}
+		if r == Sat {
+			site := reason
+			if len(site) > 200 {
+				site = site[:200]
+			}
+			w.recordViolation(p, "panic", site, reason, cm)
+			return
+		}
+	}
 	r, cm := p.check(nil)
 	if r != Sat {
 		p.w.unknownBranches++
